@@ -139,7 +139,7 @@ func run(c Case) vt.Verdict {
 		return vt.Bad("Close of the base file: %v", err)
 	}
 	check := func(stage string) *vt.Verdict {
-		f := obs.Read(file, obs.Options{})
+		f := obs.Read(file, obs.Options{SelSeeds: []uint64{11, 22, 33, 44}})
 		for _, p := range hist.Compare(ex.M, f, hist.Opts{}) {
 			if p.Kind == "attr-value-unsigned" {
 				continue
